@@ -137,6 +137,10 @@ func (w *world) snap() *snapshot {
 	return s
 }
 
+func fmtReq(r setRec) string {
+	return fmt.Sprintf("e%d:del[%s]upd[%s]->%s", r.election, strings.Join(r.deletes, ","), strings.Join(r.updates, ","), r.answer)
+}
+
 func flag(changed bool) string {
 	if changed {
 		return "+"
@@ -187,7 +191,7 @@ func (w *world) render(s *snapshot, head string, events []string) string {
 			reqs = append(reqs, fmt.Sprintf("e%d:del[]upd[]->%s", r.election, r.answer))
 			continue
 		}
-		reqs = append(reqs, fmt.Sprintf("e%d:del[%s]upd[%s]->%s", r.election, strings.Join(r.deletes, ","), strings.Join(r.updates, ","), r.answer))
+		reqs = append(reqs, fmtReq(r))
 	}
 	sort.Strings(reqs) // the order of the re-synchronisation requests is Go map order
 	fmt.Fprintf(&b, " | Q %s", strings.Join(reqs, ";"))
